@@ -79,8 +79,8 @@ def norm(t):
                 pc, pp = PREC[ch[1]], PREC[op]
                 if pc < pp or (pc == pp and side == "r") or (pc == pp and pp in (1, 5)):
                     return ("paren", [ch])
-            if ch[0] == "neg" and (op == "^" or side == "r"):
-                return ("paren", [ch])
+            if ch[0] == "neg" and op == "^":
+                return ("paren", [ch])  # -2^2 and 2^-2: only ^ is dialect-dependent around a unary minus; a+-b, a*-b are not
             if ch[0] == "pct" and op == "^":
                 return ("paren", [ch])
             return ch
